@@ -73,13 +73,14 @@ def showMOut (n : String) (o : MOut) : List (String × String) :=
   [("toctor:" ++ n, showOptList o.toCtor), ("to:" ++ n, csv (o.toWrites.map (fun p => p.1 ++ "=" ++ p.2))),
    ("fromctor:" ++ n, showOptList o.fromCtor), ("from:" ++ n, csv (o.fromWrites.map (fun p => p.1 ++ "=" ++ p.2)))]
 
-/-- model lines = the combined run; spec lines = one process per type; `same:T` = the two agree on T -/
+/-- model lines = the combined run; spec lines = one process per type; `same:T` = the combined run agrees on T
+    with `base` (the separate processes; for a permuted list: the combined run over the original list) -/
 def linesOf {τ ω : Type} [DecidableEq ω] (nameOf : τ → String) (showO : String → ω → List (String × String))
-    (comb sep : List (τ × ω)) : List (String × String) × List (String × String) :=
+    (comb sep base : List (τ × ω)) : List (String × String) × List (String × String) :=
   let find (l : List (τ × ω)) (n : String) : Option ω := (l.find? (fun p => nameOf p.1 == n)).map (·.2)
   let names := (sep.map (fun p => nameOf p.1) ++ comb.map (fun p => nameOf p.1)).eraseDups
   (comb.flatMap (fun p => showO (nameOf p.1) p.2)
-      ++ names.map (fun n => ("same:" ++ n, toString (decide (find comb n = find sep n)))),
+      ++ names.map (fun n => ("same:" ++ n, toString (decide (find comb n = find base n)))),
    sep.flatMap (fun p => showO (nameOf p.1) p.2) ++ names.map (fun n => ("same:" ++ n, "true")))
 
 def leaksOf (p : Sexp) : Leaks := match p.field? "leaks" with
@@ -101,6 +102,18 @@ def mapRegion (lk : Leaks) (disk : Disk) : LoopSt MSt MType MOut → List MType 
     else if lk.mapAcc && mapAccRelevant ls.st t then "F_mapAccLeak"
     else mapRegion lk disk (iter (mapMachine lk) disk ls t ts.isEmpty) ts
 
+/-- embedded struct types of a `new` type, by name -/
+def embedNames (t : NType) : List String := ((Ctor.flatten t.tree).filter (·.isEmbeded)).map (·.name)
+
+/-- every listed type that is embedded by a listed type comes before its embedder -/
+def depsFirst : List NType → List String → Bool
+  | [], _ => true
+  | t :: ts, before =>
+    (embedNames t).all (fun e => before.contains e || !((t :: ts).map (·.name)).contains e) && depsFirst ts (t.name :: before)
+
+def reorder {τ : Type} (nameOf : τ → String) (ts : List τ) (orig : List String) : List τ :=
+  orig.filterMap (fun n => ts.find? (fun t => nameOf t == n))
+
 /-- `(genstate (cmd new|map|simple) (leaks today|none) (flags getset json) (mode combined|solo) (disk …) (types …))` -/
 def genstateCase (id : String) (payload : List Sexp) : List String :=
   let p := Sexp.list (.atom "p" :: payload)
@@ -109,6 +122,8 @@ def genstateCase (id : String) (payload : List Sexp) : List String :=
   let soloMode := (atoms (p.field? "mode")).headD "combined" == "solo"
   let disk := parseDisk (p.field? "disk")
   let tys := (p.field? "types").map Sexp.args |>.getD []
+  -- `(orig n1 n2 …)`: this is a permuted `-type` list; the property compares with the run over the original order
+  let orig := (p.field? "orig").map (fun o => o.args.filterMap Sexp.asAtom?)
   if cmd == "new" then
     let fl : NFlags := { getset := (p.field? "flags").any (·.hasFlag "getset"), json := (p.field? "flags").any (·.hasFlag "json") }
     match tys.mapM parseNType with
@@ -117,30 +132,39 @@ def genstateCase (id : String) (payload : List Sexp) : List String :=
       let m := newMachine lk fl
       -- separate processes: with -getset each one sees the files the earlier ones wrote; without it the
       -- written files declare nothing that is ever read back
-      let sep := oneAtATime m disk ts
+      let ots := match orig with | some o => reorder (·.name) ts o | none => ts
+      let sep := oneAtATime m disk ots
       let comb := if soloMode then sep else generate m disk ts
-      let (ml, sl) := linesOf (·.name) showNOut comb sep
+      -- a permuted list is compared with the combined run over the original list (`same:T`)
+      let base := if orig.isSome then generate m disk ots else sep
+      let (ml, sl) := linesOf (·.name) showNOut comb sep base
       let crossFlag := !fl.getset && disk.any (fun f => !f.defs.isEmpty)
-      let reg := if soloMode then "WF" else if crossFlag then "Out"
+      let reg0 := if soloMode then "WF" else if crossFlag then "Out"
         else newRegion lk fl disk { st := {}, overlay := [], outs := [] } ts
+      let reg1 := if reg0 == "WF" && orig.isSome then newRegion lk fl disk { st := {}, overlay := [], outs := [] } ots else reg0
+      let reg := if reg1 == "WF" && orig.isSome && fl.getset && !(depsFirst ts [] && depsFirst ots []) then "F_embedderFirst" else reg1
       both id ml sl reg
   else if cmd == "map" then
     match tys.mapM parseMType with
     | none => err id "bad-map-types"
     | some ts =>
       let m := mapMachine lk
-      let sep := oneAtATime m disk ts
+      let ots := match orig with | some o => reorder (·.name) ts o | none => ts
+      let sep := oneAtATime m disk ots
       let comb := if soloMode then sep else generate m disk ts
-      let (ml, sl) := linesOf (·.name) showMOut comb sep
-      let reg := if soloMode then "WF" else mapRegion lk disk { st := {}, overlay := [], outs := [] } ts
+      let base := if orig.isSome then generate m disk ots else sep
+      let (ml, sl) := linesOf (·.name) showMOut comb sep base
+      let reg0 := if soloMode then "WF" else mapRegion lk disk { st := {}, overlay := [], outs := [] } ts
+      let reg := if reg0 == "WF" && orig.isSome then mapRegion lk disk { st := {}, overlay := [], outs := [] } ots else reg0
       both id ml sl reg
   else if cmd == "simple" then
     match tys.mapM parseSType with
     | none => err id "bad-simple-types"
     | some ts =>
-      let sep := oneAtATime simpleMachine disk ts
+      let ots := match orig with | some o => reorder (·.name) ts o | none => ts
+      let sep := oneAtATime simpleMachine disk ots
       let comb := if soloMode then sep else generate simpleMachine disk ts
-      let (ml, sl) := linesOf (·.name) (fun n (o : String) => [("out:" ++ n, o)]) comb sep
+      let (ml, sl) := linesOf (·.name) (fun n (o : String) => [("out:" ++ n, o)]) comb sep sep
       both id ml sl "WF"
   else err id "bad-genstate-cmd"
 
